@@ -263,6 +263,7 @@ def oracle(case) -> list[Failure]:
 
 def _oracle(case, ins: Instrument) -> list[Failure]:
     from harness.engine_run import EngineRun
+    from harness import runstate as RS      # run-state flags by role (robust against a rename of the attributes)
     fails: list[Failure] = []
     try:
         run = EngineRun(case["pcode"], uod_extra=uod_extra)
@@ -307,7 +308,7 @@ def _oracle(case, ins: Instrument) -> list[Failure]:
     def idle_and_gated() -> bool:
         cm = e._command_manager
         return (cm.cmd_queue.qsize() == 0 and not cm.cmd_executing and not e.registry.get_running_command_names()
-                and (e._runstate_paused or e._runstate_holding or not e._runstate_started))
+                and (RS.flag(e, 'paused') or RS.flag(e, 'holding') or not RS.flag(e, 'started')))
 
     def tick() -> dict | None:
         """one tick + everything that is judged in every tick; None when the tick raised"""
@@ -351,7 +352,7 @@ def _oracle(case, ins: Instrument) -> list[Failure]:
             what = f"lines {sorted(i for _, i in new_failed)} failed" if new_failed else "an instruction failed"
             if ms != "Error":
                 fails.append(Failure("failed-instruction-without-error-status", case, f"{what}, Method Status = {ms!r}"))
-            elif sysst != "Paused" and not e._runstate_stopping:
+            elif sysst != "Paused" and not RS.flag(e, 'stopping'):
                 # (recorded finding: a timed Pause of the method that the operator ended early with Unpause keeps waiting
                 #  for its duration; when it expires it unpauses whatever pause is then in effect — here the error pause)
                 site = ":timed-pause-expired-in-same-tick" if ("Pause" in names0 and "Pause" not in
@@ -371,7 +372,7 @@ def _oracle(case, ins: Instrument) -> list[Failure]:
         if st["stop"] is not None:
             sp = st["stop"]
             sp["ticks"] += 1
-            if not e._runstate_started:
+            if not RS.flag(e, 'started'):
                 st["stop"] = None
             elif sp["ticks"] >= STOP_TICKS + sp["pending"] + (ins.scheduled - sp["sched0"]):
                 fails.append(Failure("stop-did-not-stop", case,
@@ -410,8 +411,8 @@ def _oracle(case, ins: Instrument) -> list[Failure]:
         if not in_error_pause or restarting:
             return fails
         prog_failed = [n for n in snap["nodes"] if n["failed"]]
-        if end in ("fix", "stop-then-fix") and e._runstate_started and e.method_manager.program_is_started and prog_failed \
-                and st["other_errors"] == 0 and not e._runstate_stopping \
+        if end in ("fix", "stop-then-fix") and RS.flag(e, 'started') and e.method_manager.program_is_started and prog_failed \
+                and st["other_errors"] == 0 and not RS.flag(e, 'stopping') \
                 and e.method_manager.program is e.interpreter._program:
             if end == "stop-then-fix":
                 if not idle_and_gated() or run.user("Stop") != "ok":
@@ -437,7 +438,7 @@ def _oracle(case, ins: Instrument) -> list[Failure]:
                 for _ in range(STOP_TICKS + 2):
                     if tick() is None:
                         return fails
-                if e._runstate_started:
+                if RS.flag(e, 'started'):
                     fails.append(Failure("stop-lost:method-saved-before-next-tick", case,
                                          "Stop was accepted, a method was saved before the next tick, the run is still "
                                          f"started after {ins.cmd_ok - ok0} command phases"))
@@ -445,15 +446,15 @@ def _oracle(case, ins: Instrument) -> list[Failure]:
             if run.user("Unpause") != "ok":
                 fails.append(Failure("unpause-refused-after-corrected-method", case, "Unpause raised"))
                 return fails
-            holding = e._runstate_holding
+            holding = RS.flag(e, 'holding')
             calls0 = ins.interp_calls
             s2 = tick()
             if s2 is None:
                 return fails
-            if e._runstate_paused or raw(s2, "System State") != ("Holding" if holding else "Running") \
+            if RS.flag(e, 'paused') or raw(s2, "System State") != ("Holding" if holding else "Running") \
                     or raw(s2, "Method Status") != "OK":
                 fails.append(Failure("run-not-resumed-after-corrected-method", case,
-                                     f"after Unpause: paused={e._runstate_paused} System State={raw(s2, 'System State')!r} "
+                                     f"after Unpause: paused={RS.flag(e, 'paused')} System State={raw(s2, 'System State')!r} "
                                      f"Method Status={raw(s2, 'Method Status')!r}"))
                 return fails
             if not holding:
